@@ -7,7 +7,9 @@ def run(tier):
     exe = vlib.build(["drv_timefmt"])["drv_timefmt"]
     c.mc("TimeFmt", "MC_TimeFmt", workers=8, timeout=900)
     nsh = 8 if tier == "quick" else 16
-    traces = c.drive(exe, [["@OUT", tier, vlib.SEED, i, nsh] for i in range(nsh)], tag="time")
+    traces = []
+    for k, sd in enumerate(vlib.seeds(tier, 8)):
+        traces += c.drive(exe, [["@OUT", tier, sd, i, nsh] for i in range(nsh)], tag="time%d" % k)
     bads = c.validate("TimeFmt", "Trace_TimeFmt", traces, timeout=3000, xmx="6g")
     c.judge(bads)
     c.rule = ("durations around every unit boundary (1 s, 10 s, 60 s, 600 s, 1 h, 10 h, 1 d, 10 d, 100 d) +-20 us densely and "
